@@ -2,6 +2,7 @@ package checks
 
 import (
 	"fmt"
+	"strings"
 
 	"github.com/nlnwa/whatwg-url/url"
 
@@ -167,7 +168,13 @@ func init() {
 			}
 			alpha = append(alpha, Op{Kind: "pathname", A: ".."}, Op{Kind: "pathname", A: "/a/b"}, Op{Kind: "port", A: "8080"}, Op{Kind: "search", A: "?a=b"}, Op{Kind: "hash", A: "#a"})
 			alpha = append(alpha, SPAlphabet(1, []string{"a", "n"}, []string{"1", ""})...)
-			starts := append(append([]string{}, StartURLs...), "http://h/p?a=1&b=2#f", "foo:/p?a=1", "file:///C:/d?a=b")
+			var starts []string
+			for _, st := range StartURLs {
+				if !strings.Contains(st, "\x1e") { // pairs are built from base-less parses
+					starts = append(starts, st)
+				}
+			}
+			starts = append(starts, "http://h/p?a=1&b=2#f", "foo:/p?a=1", "file:///C:/d?a=b")
 			pairings := []string{"clone"}
 			for _, r := range ResolveRefs {
 				pairings = append(pairings, "resolve:"+r)
